@@ -1241,7 +1241,7 @@ Proof.
       refine (evolf_trans _ _ _ _ _ _ (IH2 prio _ _ _ Hef)).
       apply retrieve_evolf. constructor; psimpl.
       - intros x. unfold upd. destruct (Nat.eqb_spec x d) as [->|Hne]; [|left; reflexivity].
-        right. right. repeat split; [exact Hw|]. rewrite Nat.eqb_refl. reflexivity.
+        right. right. split; [exact Hw|split; reflexivity].
       - intros x. unfold upd. destruct (Nat.eqb_spec x d) as [->|Hne]; [intros _; right; exact Hw|intros H; left; exact H].
       - intros x Hx. unfold upd. destruct (Nat.eqb x d); [reflexivity|exact Hx].
       - reflexivity. }
@@ -1272,3 +1272,1070 @@ Proof.
   intros [A1 _ _ _] x. unfold is_wanted.
   destruct (A1 x) as [Ha|[[Ha1 Ha2]|[Ha1 [Ha2 _]]]]; [rewrite Ha; reflexivity|rewrite Ha1, Ha2; reflexivity|rewrite Ha1, Ha2; reflexivity].
 Qed.
+
+(* ------------------------------------------------------------------ the state invariant *)
+Hypothesis Hk : 0 < c_k cfg.
+Hypothesis Hj : 0 < c_j cfg.
+
+Lemma count_same (f f' : nat -> bool) l : (forall x, In x l -> f' x = f x) -> count_if f' l = count_if f l.
+Proof. intros H. unfold count_if. f_equal. apply filter_ext_in. exact H. Qed.
+
+Lemma count_flip (f f' : nat -> bool) d l : NoDup l -> In d l -> f d = true -> f' d = false ->
+  (forall x, x <> d -> f' x = f x) -> count_if f l = S (count_if f' l).
+Proof.
+  intros Hnd Hin H1 H2 H3. unfold count_if.
+  induction Hnd as [|x l Hx Hl IH]; [destruct Hin|].
+  cbn [filter]. destruct Hin as [->|Hin].
+  - rewrite H1, H2. cbn [length]. f_equal. f_equal. apply filter_ext_in. intros y Hy.
+    symmetry. apply H3. intros ->. exact (Hx Hy).
+  - assert (x <> d) by (intros ->; exact (Hx Hin)). rewrite (H3 x) by assumption.
+    destruct (f x); cbn [length]; rewrite (IH Hin); reflexivity.
+Qed.
+
+Lemma count_pos_ex (f : nat -> bool) l : 0 < count_if f l -> exists x, In x l /\ f x = true.
+Proof.
+  unfold count_if. induction l as [|x l IH]; cbn [filter length]; [lia|].
+  destruct (f x) eqn:E.
+  - intros _. exists x. split; [left; reflexivity|exact E].
+  - intros H. destruct (IH H) as [y [Hy Hf]]. exists y. split; [right; exact Hy|exact Hf].
+Qed.
+
+Lemma count_ge_one (f : nat -> bool) l x : In x l -> f x = true -> 1 <= count_if f l.
+Proof.
+  intros Hin Hf. unfold count_if.
+  assert (H : In x (filter f l)) by (apply filter_In; split; assumption).
+  destruct (filter f l); [destruct H|cbn [length]; lia].
+Qed.
+
+Definition npwf (w : nat -> option want_t) : nat :=
+  count_if (fun e => is_wanted w e && negb (phony g e)) (all_edges g).
+Definition npw (p : plan) : nat := npwf (p_want p).
+
+Record core (s : state) : Prop := {
+  co_pinv : pinv QT [] (s_running s) (s_failed s) (s_plan s);
+  co_pending : s_pending s = length (s_running s);
+  co_nophony : forall e, In e (s_running s ++ s_failed s) -> phony g e = false;
+  co_commands : p_commands (s_plan s) + length (s_failed s) = npw (s_plan s) + s_finished s;
+  co_total : s_total s = p_commands (s_plan s);
+  co_started : s_started s = s_finished s + length (s_running s);
+  co_fin_failed : length (s_failed s) <= s_finished s;
+  co_fa : s_fa s <= c_k cfg;
+  co_fa_k : s_fa s = c_k cfg -> s_failed s = [];
+  co_exit0 : s_failed s = [] -> s_exit s = 0;
+  co_exit1 : s_failed s <> [] -> s_exit s <> 0;
+  co_j : length (s_running s) <= c_j cfg;
+  co_tok : match c_jobserver cfg with Some n => p_tokens (s_plan s) <= S n | None => True end;
+  co_waiting : s_waiting s = true -> s_running s <> [] }.
+
+Record lim (s : state) : Prop := {
+  li_j : length (s_running s) <= c_j cfg;
+  li_pool : forall q, 0 < depth g q -> cnt g q (s_running s) <= depth g q;
+  li_tok : match c_jobserver cfg with Some n => length (s_running s) <= S n | None => True end }.
+
+Definition sinv (s : state) : Prop := (s_phase s = PhBuild -> core s) /\ lim s.
+
+Lemma core_lim s : core s -> lim s.
+Proof.
+  intros C. constructor.
+  - exact (co_j s C).
+  - intros q Hq. destruct (pi_use _ _ _ _ _ (co_pinv s C) q Hq) as [H1 H2]. lia.
+  - pose proof (co_tok s C) as H. pose proof (pi_tokens _ _ _ _ _ (co_pinv s C)) as Ht.
+    destruct (c_jobserver cfg); [|exact I]. lia.
+Qed.
+
+Ltac peel G H := apply andb_true_iff in G; destruct G as [G H].
+
+(* FindWork pops e *)
+Lemma start_pop_pinv p U F e : pinv QT [] U F p -> In e (p_ready p) ->
+  pinv QT [] (e :: U) F
+    (match c_jobserver cfg with
+     | None => set_ready p (rem e (p_ready p))
+     | Some _ => set_tokens (set_ready p (rem e (p_ready p))) (S (p_tokens (set_ready p (rem e (p_ready p)))))
+     end).
+Proof.
+  intros HI Hin. pose proof (pinv_nodup_R _ _ _ _ _ HI) as HndR.
+  pose proof HI as [I1 I2 I3 I4 I5 I6 I7 I8 I9 I10 I11 I12 I13 I14 I15].
+  assert (H : forall t, t = tok (e :: U) ->
+    pinv QT [] (e :: U) F (mkPlan (p_want p) (rem e (p_ready p)) (p_delayed p) (p_use p) (p_wanted p)
+                                  (p_commands p) (p_oready p) t)).
+  { intros t Ht. apply (pinv_reshape QT QT [] U F (e :: U) F (rem e (p_ready p)) (p_use p) t p HI).
+    - unfold sched. rewrite (rem_perm e (p_ready p) HndR Hin) at 2. cbn [app].
+      rewrite (Permutation_middle (rem e (p_ready p))). apply Permutation_app_head.
+      rewrite (Permutation_middle (p_delayed p)). apply Permutation_app_head. reflexivity.
+    - intros q Hq. destruct (I11 q Hq) as [H1 H2]. split; [|exact H2].
+      rewrite H1. rewrite (cnt_rem g q e (p_ready p) HndR Hin). rewrite (cnt_cons g q e U). lia.
+    - intros q _ Hq Hd. apply I12; [exact I|exact Hq|exact Hd].
+    - exact Ht. }
+  unfold tok in H. unfold tok in I15. destruct (c_jobserver cfg).
+  - apply H. unfold set_tokens, set_ready. psimpl. rewrite I15. reflexivity.
+  - specialize (H (p_tokens p) I15). destruct p. exact H.
+Qed.
+
+Lemma pinv_set_commands (Q : nat -> Prop) X A F p c : pinv Q X A F p -> pinv Q X A F (set_commands p c).
+Proof. intros [I1 I2 I3 I4 I5 I6 I7 I8 I9 I10 I11 I12 I13 I14 I15]. constructor; assumption. Qed.
+
+(* CleanNode: kWantToStart -> kWantNothing *)
+Lemma pinv_prune_pure A F p e w :
+  pinv QT [] A F p -> p_want p e = Some WToStart -> ~ In e (sched p A F) ->
+  all_inputs_ready g p e = false -> p_wanted p = S w ->
+  pinv QT [] A F (set_wanted (set_want p (upd (p_want p) e (Some WNothing))) w).
+Proof.
+  intros [I1 I2 I3 I4 I5 I6 I7 I8 I9 I10 I11 I12 I13 I14 I15] Hw Hns Ha Hwd.
+  set (p' := set_wanted _ _).
+  assert (Hwant : forall x, x <> e -> p_want p' x = p_want p x) by (intros x Hx; unfold p'; psimpl; apply upd_other; exact Hx).
+  assert (Hwe : p_want p' e = Some WNothing) by (unfold p'; psimpl; apply upd_same).
+  assert (Hair : forall x, all_inputs_ready g p' x = all_inputs_ready g p x) by reflexivity.
+  assert (Hs : sched p' A F = sched p A F) by reflexivity.
+  constructor; try rewrite Hs; try assumption.
+  - intros x Hx. destruct (I2 x Hx) as [H1 H2]. split; [|exact H2].
+    unfold is_wanted. rewrite Hwant; [exact H1|]. intros ->. exact (Hns Hx).
+  - intros x Hx. destruct (Nat.eq_dec x e) as [->|Hne]; [congruence|]. rewrite Hwant in Hx by exact Hne. apply I3. exact Hx.
+  - intros x Hx Hax. destruct (Nat.eq_dec x e) as [->|Hne]; [congruence|]. rewrite Hwant in Hx by exact Hne. apply I4; assumption.
+  - intros x Hx Hax. destruct (Nat.eq_dec x e) as [->|Hne]; [rewrite Hair in Hax; congruence|].
+    rewrite Hwant in Hx by exact Hne. apply I5; assumption.
+  - intros x [].
+  - intros x Hx. destruct (Nat.eq_dec x e) as [->|Hne].
+    + change (p_oready p e = true) in Hx. rewrite (I7 e Hx) in Hw. discriminate.
+    + rewrite Hwant by exact Hne. apply I7. exact Hx.
+  - intros x i Hx Hi Ho.
+    assert (Hx' : p_want p x <> None) by (destruct (Nat.eq_dec x e) as [->|Hne]; [congruence|rewrite <- Hwant by exact Hne; exact Hx]).
+    pose proof (I9 x i Hx' Hi Ho) as H. destruct (Nat.eq_dec i e) as [->|Hne]; [congruence|]. rewrite Hwant by exact Hne. exact H.
+  - intros x Hx. apply I10. destruct (Nat.eq_dec x e) as [->|Hne]; [congruence|rewrite <- Hwant by exact Hne; exact Hx].
+  - unfold p'. psimpl.
+    assert (Hlt : e < n_edges g) by (apply I10; congruence).
+    pose proof (count_if_flip (p_want p) e (Some WNothing) (all_edges g) all_edges_nodup (all_edges_in e Hlt)) as Hc.
+    unfold is_wanted in Hc at 1 2. rewrite Hw, upd_same in Hc. specialize (Hc eq_refl eq_refl).
+    rewrite <- I14, Hwd in Hc. injection Hc as Hc. exact Hc.
+Qed.
+
+Lemma npw_evolf w o c p' : evolf w o c p' -> npw p' = npwf w.
+Proof.
+  intros H. unfold npw, npwf. apply count_same. intros x _. rewrite (evolf_is_wanted w o c p' H). reflexivity.
+Qed.
+
+Lemma npwf_erase w e : e < n_edges g -> is_wanted w e = true ->
+  npwf w = (if phony g e then 0 else 1) + npwf (upd w e None).
+Proof.
+  intros Hlt Hw. unfold npwf. destruct (phony g e) eqn:Eph.
+  - cbn [plus]. symmetry. apply count_same. intros x _. unfold is_wanted, upd.
+    destruct (Nat.eqb_spec x e) as [->|Hne]; [rewrite Eph; cbn [negb]; rewrite !andb_false_r; reflexivity|reflexivity].
+  - apply (count_flip _ _ e); [apply all_edges_nodup|apply all_edges_in; exact Hlt| | |].
+    + rewrite Hw, Eph. reflexivity.
+    + unfold is_wanted. rewrite upd_same. reflexivity.
+    + intros x Hx. unfold is_wanted. rewrite upd_other by exact Hx. reflexivity.
+Qed.
+
+Lemma in_build_true s : in_build s = true -> s_phase s = PhBuild.
+Proof. unfold in_build. destruct (s_phase s); [reflexivity|discriminate|discriminate]. Qed.
+
+Lemma core_start s e prio s' : core s ->
+  step_res g cfg s (EvStart e prio) = Ok s' -> core s' /\ s_phase s' = PhBuild.
+Proof.
+  intros C Hst. cbn [step_res] in Hst.
+  destruct (in_build s && negb (s_waiting s) && more_to_do (s_plan s) && (0 <? s_fa s)
+            && (0 <? capacity cfg s) && memb e (p_ready (s_plan s)) && token_ok cfg (s_plan s)) eqn:G;
+    [|discriminate].
+  peel G G2. peel G G0. peel G G1. peel G Gfa. peel G Gmore. peel G Gnw.
+  apply in_build_true in G. apply memb_In in G0. apply Nat.ltb_lt in G1.
+  pose proof (start_pop_pinv (s_plan s) (s_running s) (s_failed s) e (co_pinv s C) G0) as HP.
+  set (p2 := match c_jobserver cfg with
+             | None => set_ready (s_plan s) (rem e (p_ready (s_plan s)))
+             | Some _ => _ end) in *.
+  assert (Hp2c : p_commands p2 = p_commands (s_plan s)) by (unfold p2; destruct (c_jobserver cfg); reflexivity).
+  assert (Hp2w : p_want p2 = p_want (s_plan s)) by (unfold p2; destruct (c_jobserver cfg); reflexivity).
+  assert (Htok2 : match c_jobserver cfg with Some n => p_tokens p2 <= S n | None => True end).
+  { unfold p2. unfold token_ok in G2. destruct (c_jobserver cfg); [|exact I].
+    apply Nat.ltb_lt in G2. unfold set_tokens, set_ready. psimpl. lia. }
+  unfold capacity in G1.
+  destruct (phony g e) eqn:Eph.
+  - destruct (edge_finished (plan_fuel g) g cfg prio e true true p2) as [p3| |] eqn:Eef; try discriminate.
+    injection Hst as <-. split; [|exact G].
+    pose proof (ef_top_success _ _ _ _ _ _ _ HP (or_introl eq_refl) Eef) as HP3.
+    assert (Hne : ~ In e (s_running s)).
+    { pose proof (pinv_nodup_A _ _ _ _ _ HP) as H. inversion H; assumption. }
+    assert (Hrem : rem e (e :: s_running s) = s_running s).
+    { cbn [rem]. rewrite Nat.eqb_refl. apply rem_notin. exact Hne. }
+    rewrite Hrem in HP3.
+    destruct (pi_sched _ _ _ _ _ HP e (in_sched_A p2 (e :: s_running s) (s_failed s) e (or_introl eq_refl))) as [Hw _].
+    unfold is_wanted in Hw. destruct (p_want p2 e) as [w|] eqn:Ew; [|discriminate].
+    assert (Hwn : w <> WNothing) by (intros ->; discriminate).
+    pose proof (ef_top_evol _ _ _ true _ _ w Ew Hwn Eef) as Hev. cbn in Hev.
+    destruct C as [C1 C2 C3 C4 C5 C6 C7 C8 C9 C10 C11 C12 C13 C14].
+    constructor; unfold set_plan; cbn [s_plan s_running s_pending s_fa s_exit s_total s_started s_finished s_failed s_waiting s_phase]; try assumption.
+    + rewrite (ev_commands _ _ _ _ Hev), Hp2c. rewrite (npw_evolf _ _ _ _ Hev).
+      assert (Hlt : e < n_edges g) by (apply (pi_range _ _ _ _ _ HP); congruence).
+      assert (Hiw : is_wanted (p_want p2) e = true) by (unfold is_wanted; rewrite Ew; destruct w; [congruence|reflexivity|reflexivity]).
+      pose proof (npwf_erase (p_want p2) e Hlt Hiw) as Hn. rewrite Eph in Hn. cbn [plus] in Hn.
+      rewrite <- Hn. unfold npw in C4. rewrite Hp2w. exact C4.
+    + rewrite (ev_commands _ _ _ _ Hev), Hp2c. exact C5.
+    + pose proof (pi_tokens _ _ _ _ _ HP3) as Ht3. pose proof (pi_tokens _ _ _ _ _ C1) as Ht.
+      destruct (c_jobserver cfg); [|exact I]. lia.
+  - injection Hst as <-. split; [|exact G].
+    destruct C as [C1 C2 C3 C4 C5 C6 C7 C8 C9 C10 C11 C12 C13 C14].
+    constructor; cbn [s_plan s_running s_pending s_fa s_exit s_total s_started s_finished s_failed s_waiting s_phase]; try assumption.
+    + cbn [length]. rewrite C2. reflexivity.
+    + intros x Hx. cbn [app] in Hx. destruct Hx as [<-|Hx]; [exact Eph|apply C3; exact Hx].
+    + rewrite Hp2c. unfold npw. rewrite Hp2w. exact C4.
+    + rewrite Hp2c. exact C5.
+    + cbn [length]. lia.
+    + cbn [length]. lia.
+    + discriminate.
+Qed.
+
+Lemma core_wait s s' : core s -> step_res g cfg s EvWait = Ok s' -> core s' /\ s_phase s' = PhBuild.
+Proof.
+  intros C Hst. cbn [step_res] in Hst.
+  destruct (in_build s && negb (s_waiting s) && more_to_do (s_plan s) && (0 <? s_pending s)
+            && negb (can_start cfg s)) eqn:G; [|discriminate].
+  peel G Gcs. peel G G1. peel G Gmore. peel G Gnw.
+  apply in_build_true in G. apply Nat.ltb_lt in G1. injection Hst as <-.
+  split; [|exact G].
+  destruct C as [C1 C2 C3 C4 C5 C6 C7 C8 C9 C10 C11 C12 C13 C14].
+  constructor; cbn [s_plan s_running s_pending s_fa s_exit s_total s_started s_finished s_failed s_waiting s_phase]; try assumption.
+  intros _ Hnil. rewrite Hnil in C2. cbn [length] in C2. lia.
+Qed.
+
+Lemma core_prune s e s' : core s -> step_res g cfg s (EvPrune e) = Ok s' -> core s' /\ s_phase s' = PhBuild.
+Proof.
+  intros C Hst. cbn [step_res] in Hst.
+  destruct (in_build s && s_waiting s
+            && match p_want (s_plan s) e with Some WToStart => true | _ => false end
+            && negb (memb e (scheduled s)) && negb (all_inputs_ready g (s_plan s) e)) eqn:G; [|discriminate].
+  peel G G2. peel G G1. peel G Gw. peel G Gwait.
+  apply in_build_true in G. apply negb_true_iff in G2, G1. apply memb_false in G1.
+  destruct (p_want (s_plan s) e) as [[| |]|] eqn:Ew; try discriminate.
+  destruct (p_wanted (s_plan s)) as [|w] eqn:Ewd; [discriminate|].
+  pose proof (pinv_prune_pure _ _ _ e w (co_pinv s C) Ew G1 G2 Ewd) as HP.
+  set (p1 := set_wanted _ w) in *.
+  assert (Hlt : e < n_edges g) by (apply (pi_range _ _ _ _ _ (co_pinv s C)); congruence).
+  assert (Hnpw : npw (s_plan s) = (if phony g e then 0 else 1) + npw p1).
+  { unfold npw, npwf. destruct (phony g e) eqn:Eph.
+    - cbn [plus]. symmetry. apply count_same. intros x _. unfold p1. psimpl. unfold is_wanted, upd.
+      destruct (Nat.eqb_spec x e) as [->|Hne]; [rewrite Eph; cbn [negb]; rewrite !andb_false_r; reflexivity|reflexivity].
+    - apply (count_flip _ _ e); [apply all_edges_nodup|apply all_edges_in; exact Hlt| | |].
+      + unfold is_wanted. rewrite Ew, Eph. reflexivity.
+      + unfold p1. psimpl. unfold is_wanted. rewrite upd_same. reflexivity.
+      + intros x Hx. unfold p1. psimpl. unfold is_wanted. rewrite upd_other by exact Hx. reflexivity. }
+  destruct C as [C1 C2 C3 C4 C5 C6 C7 C8 C9 C10 C11 C12 C13 C14].
+  destruct (phony g e) eqn:Eph.
+  - injection Hst as <-. split; [|exact G].
+    constructor; unfold set_plan; cbn [s_plan s_running s_pending s_fa s_exit s_total s_started s_finished s_failed s_waiting s_phase]; try assumption.
+    change (p_commands p1) with (p_commands (s_plan s)). lia.
+  - change (p_commands p1) with (p_commands (s_plan s)) in Hst.
+    destruct (p_commands (s_plan s)) as [|c] eqn:Ec; [discriminate|].
+    destruct (s_total s) as [|t] eqn:Et; [discriminate|].
+    injection Hst as <-. split; [|exact G].
+    constructor; cbn [s_plan s_running s_pending s_fa s_exit s_total s_started s_finished s_failed s_waiting s_phase]; try assumption.
+    + apply pinv_set_commands. exact HP.
+    + change (p_commands (set_commands p1 c)) with c.
+      change (npw (set_commands p1 c)) with (npw p1). lia.
+    + change (p_commands (set_commands p1 c)) with c. lia.
+Qed.
+
+Lemma core_finish s e code prio s' : core s ->
+  step_res g cfg s (EvFinish e code prio) = Ok s' -> core s' /\ s_phase s' = PhBuild.
+Proof.
+  intros C Hst. cbn [step_res] in Hst.
+  destruct (in_build s && s_waiting s && memb e (s_running s) && negb (Nat.eqb code exit_interrupted)) eqn:G;
+    [|discriminate].
+  peel G Gcode. peel G G1. peel G Gwait.
+  apply in_build_true in G. apply memb_In in G1.
+  destruct (s_pending s) as [|pend] eqn:Epend; [discriminate|].
+  pose proof (co_pinv s C) as HP. pose proof (pinv_nodup_A _ _ _ _ _ HP) as HndA.
+  pose proof (rem_length e (s_running s) HndA G1) as Hlen.
+  destruct (pi_sched _ _ _ _ _ HP e (in_sched_A _ _ _ e G1)) as [Hw _].
+  unfold is_wanted in Hw. destruct (p_want (s_plan s) e) as [w|] eqn:Ew; [|discriminate].
+  assert (Hwn : w <> WNothing) by (intros ->; discriminate).
+  assert (Hiw : is_wanted (p_want (s_plan s)) e = true) by (unfold is_wanted; rewrite Ew; exact Hw).
+  assert (Hlt : e < n_edges g) by (apply (pi_range _ _ _ _ _ HP); congruence).
+  assert (Hph : phony g e = false) by (apply (co_nophony s C); apply in_or_app; left; exact G1).
+  destruct C as [C1 C2 C3 C4 C5 C6 C7 C8 C9 C10 C11 C12 C13 C14].
+  destruct (Nat.eqb_spec code 0) as [Hc0|Hc0].
+  - destruct (edge_finished (plan_fuel g) g cfg prio e true true (s_plan s)) as [p'| |] eqn:Eef; try discriminate.
+    injection Hst as <-. split; [|exact G].
+    pose proof (ef_top_success _ _ _ _ _ _ _ HP G1 Eef) as HP'.
+    pose proof (ef_top_evol _ _ _ true _ _ w Ew Hwn Eef) as Hev. cbn in Hev.
+    pose proof (npwf_erase _ e Hlt Hiw) as Hn. rewrite Hph in Hn.
+    constructor; cbn [s_plan s_running s_pending s_fa s_exit s_total s_started s_finished s_failed s_waiting s_phase]; try assumption.
+    + lia.
+    + intros x Hx. apply C3. apply in_app_or in Hx. apply in_or_app.
+      destruct Hx as [Hx|Hx]; [left; apply rem_In in Hx; tauto|right; exact Hx].
+    + rewrite (ev_commands _ _ _ _ Hev). rewrite (npw_evolf _ _ _ _ Hev). unfold npw in C4. lia.
+    + rewrite (ev_commands _ _ _ _ Hev). exact C5.
+    + lia.
+    + lia.
+    + lia.
+    + pose proof (pi_tokens _ _ _ _ _ HP') as Ht3. pose proof (pi_tokens _ _ _ _ _ C1) as Ht.
+      destruct (c_jobserver cfg); [|exact I]. lia.
+    + discriminate.
+  - destruct (edge_finished (plan_fuel g) g cfg prio e false true (s_plan s)) as [p'| |] eqn:Eef; try discriminate.
+    injection Hst as <-. split; [|exact G].
+    pose proof (ef_top_failure _ _ _ _ _ _ _ HP G1 Eef) as HP'.
+    pose proof (ef_top_evol _ _ _ false _ _ w Ew Hwn Eef) as Hev. cbn in Hev.
+    constructor; cbn [s_plan s_running s_pending s_fa s_exit s_total s_started s_finished s_failed s_waiting s_phase]; try assumption.
+    + lia.
+    + intros x Hx. apply in_app_or in Hx. destruct Hx as [Hx|[<-|Hx]].
+      * apply C3. apply in_or_app. left. apply rem_In in Hx. tauto.
+      * exact Hph.
+      * apply C3. apply in_or_app. right. exact Hx.
+    + rewrite (ev_commands _ _ _ _ Hev). rewrite (npw_evolf _ _ _ _ Hev). unfold npw in C4. cbn [length]. fold (npwf (p_want (s_plan s))). lia.
+    + rewrite (ev_commands _ _ _ _ Hev). exact C5.
+    + lia.
+    + cbn [length]. lia.
+    + lia.
+    + intros H. exfalso. destruct (s_fa s) as [|f]; cbn [pred] in H; lia.
+    + discriminate.
+    + intros _. exact Hc0.
+    + lia.
+    + pose proof (pi_tokens _ _ _ _ _ HP') as Ht3. pose proof (pi_tokens _ _ _ _ _ C1) as Ht.
+      destruct (c_jobserver cfg); [|exact I]. lia.
+    + discriminate.
+Qed.
+
+Lemma core_init prio sn : wf_snap sn -> core (init_state g cfg prio sn).
+Proof.
+  intros Hws. destruct (schedule_initial_pinv prio sn Hws) as [HP [Hc Hw]].
+  unfold init_state.
+  constructor; cbn [s_plan s_running s_pending s_fa s_exit s_total s_started s_finished s_failed s_waiting s_phase app length].
+  - exact HP.
+  - reflexivity.
+  - intros e [].
+  - rewrite Hc, (ws_commands sn Hws). rewrite !Nat.add_0_r. unfold npw, npwf. symmetry.
+    apply count_same. intros x _. rewrite Hw. reflexivity.
+  - symmetry. exact Hc.
+  - reflexivity.
+  - lia.
+  - lia.
+  - reflexivity.
+  - reflexivity.
+  - intros H. congruence.
+  - lia.
+  - rewrite (pi_tokens _ _ _ _ _ HP). destruct (c_jobserver cfg); [cbn [length]; lia|exact I].
+  - discriminate.
+Qed.
+
+Lemma lim_same_running s s' : s_running s' = s_running s -> lim s -> lim s'.
+Proof. intros E [L1 L2 L3]. constructor; rewrite E; assumption. Qed.
+
+Lemma lim_nil s : s_running s = [] -> lim s.
+Proof.
+  intros E. constructor; rewrite E; cbn [length].
+  - lia.
+  - intros q _. unfold cnt. cbn. lia.
+  - destruct (c_jobserver cfg); [lia|exact I].
+Qed.
+
+Lemma sinv_step s ev s' : sinv s -> step g cfg s ev = Some s' -> sinv s'.
+Proof.
+  intros [Hcore Hlim] Hst. unfold step in Hst.
+  destruct (step_res g cfg s ev) as [s1| |] eqn:E; try discriminate. injection Hst as <-.
+  destruct (s_phase s) eqn:Eph.
+  - specialize (Hcore eq_refl).
+    destruct ev as [e prio| |e|e code prio| |code m].
+    + destruct (core_start s e prio s1 Hcore E) as [C' P']. split; [intros _; exact C'|apply core_lim; exact C'].
+    + destruct (core_wait s s1 Hcore E) as [C' P']. split; [intros _; exact C'|apply core_lim; exact C'].
+    + destruct (core_prune s e s1 Hcore E) as [C' P']. split; [intros _; exact C'|apply core_lim; exact C'].
+    + destruct (core_finish s e code prio s1 Hcore E) as [C' P']. split; [intros _; exact C'|apply core_lim; exact C'].
+    + cbn [step_res] in E. destruct (in_build s && s_waiting s); [|discriminate]. injection E as <-.
+      split; [cbn [s_phase]; discriminate|apply lim_nil; reflexivity].
+    + cbn [step_res] in E. rewrite Eph in E. destruct (s_waiting s); [discriminate|].
+      match type of E with (match ?X with _ => _ end) = _ => destruct X as [[c m']|]; [|discriminate] end.
+      destruct (Nat.eqb c code && exit_msg_eqb m m'); [|discriminate]. injection E as <-.
+      split; [cbn [s_phase]; discriminate|apply (lim_same_running s); [reflexivity|exact Hlim]].
+  - destruct ev as [e prio| |e|e code prio| |code m]; cbn [step_res] in E; unfold in_build in E; rewrite Eph in E;
+      cbn [andb] in E; try discriminate.
+    destruct (Nat.eqb code exit_interrupted && exit_msg_eqb m MInterrupted); [|discriminate]. injection E as <-.
+    split; [cbn [s_phase]; discriminate|apply (lim_same_running s); [reflexivity|exact Hlim]].
+  - destruct ev as [e prio| |e|e code prio| |code m]; cbn [step_res] in E; unfold in_build in E; rewrite Eph in E;
+      cbn [andb] in E; discriminate.
+Qed.
+
+Lemma sinv_accepts evs : forall s s', sinv s -> accepts g cfg s evs = Some s' -> sinv s'.
+Proof.
+  induction evs as [|ev evs IH]; intros s s' HI Ha; cbn [accepts] in Ha.
+  - injection Ha as <-. exact HI.
+  - destruct (step g cfg s ev) as [s1|] eqn:E; [|discriminate].
+    apply (IH s1 s'); [apply (sinv_step s ev s1 HI E)|exact Ha].
+Qed.
+
+Lemma sinv_init prio sn : wf_snap sn -> sinv (init_state g cfg prio sn).
+Proof.
+  intros Hws. pose proof (core_init prio sn Hws) as C. split; [intros _; exact C|apply core_lim; exact C].
+Qed.
+
+Theorem sinv_run prio sn evs s : wf_snap sn -> run g cfg prio sn evs = Some s -> sinv s.
+Proof. intros Hws Hr. apply (sinv_accepts evs _ s (sinv_init prio sn Hws) Hr). Qed.
+
+(* ------------------------------------------------------------------ traces *)
+Lemma accepts_app evs1 : forall s evs2,
+  accepts g cfg s (evs1 ++ evs2) =
+  match accepts g cfg s evs1 with Some s1 => accepts g cfg s1 evs2 | None => None end.
+Proof.
+  induction evs1 as [|ev evs1 IH]; intros s evs2; cbn [app accepts]; [reflexivity|].
+  destruct (step g cfg s ev); [apply IH|reflexivity].
+Qed.
+
+Definition reachable (s : state) : Prop :=
+  exists prio sn evs, wf_snap sn /\ run g cfg prio sn evs = Some s.
+
+Lemma reachable_sinv s : reachable s -> sinv s.
+Proof. intros [prio [sn [evs [Hws Hr]]]]. apply (sinv_run prio sn evs s Hws Hr). Qed.
+
+Lemma reachable_step s ev s' : reachable s -> step g cfg s ev = Some s' -> reachable s'.
+Proof.
+  intros [prio [sn [evs [Hws Hr]]]] Hst. exists prio, sn, (evs ++ [ev]). split; [exact Hws|].
+  unfold run in *. rewrite accepts_app, Hr. cbn [accepts]. rewrite Hst. reflexivity.
+Qed.
+
+Lemma step_in_build s ev s' : step g cfg s ev = Some s' ->
+  (forall c m, ev <> EvExit c m) -> s_phase s = PhBuild.
+Proof.
+  intros Hst Hne. unfold step in Hst. destruct (step_res g cfg s ev) as [s1| |] eqn:E; try discriminate.
+  destruct ev as [e prio| |e|e code prio| |code m]; cbn [step_res] in E;
+    try (destruct (in_build s) eqn:Eb; [apply in_build_true; exact Eb|cbn [andb] in E; discriminate]).
+  exfalso. apply (Hne code m). reflexivity.
+Qed.
+
+Lemma core_of_step s ev s' : sinv s -> step g cfg s ev = Some s' ->
+  (forall c m, ev <> EvExit c m) -> core s.
+Proof. intros [H _] Hst Hne. apply H. apply (step_in_build s ev s' Hst Hne). Qed.
+
+(* ------------------------------------------------------------------ C04 *)
+Theorem start_inputs_ready s e prio s' : reachable s -> step g cfg s (EvStart e prio) = Some s' ->
+  forall i, In i (ins g e) -> p_oready (s_plan s) i = true.
+Proof.
+  intros Hr Hst i Hi.
+  assert (C : core s) by (apply (core_of_step s _ s' (reachable_sinv s Hr) Hst); intros c m; discriminate).
+  unfold step in Hst. cbn [step_res] in Hst.
+  destruct (in_build s && negb (s_waiting s) && more_to_do (s_plan s) && (0 <? s_fa s)
+            && (0 <? capacity cfg s) && memb e (p_ready (s_plan s)) && token_ok cfg (s_plan s)) eqn:G;
+    [|discriminate].
+  peel G G2. peel G G0. apply memb_In in G0.
+  destruct (pi_sched _ _ _ _ _ (co_pinv s C) e (in_sched_R _ _ _ e G0)) as [_ Ha].
+  apply (air_in g _ e i Ha Hi).
+Qed.
+
+(* the guard of Start consists of exactly these conditions: nothing about validations *)
+Theorem start_enabled s e prio :
+  in_build s = true -> s_waiting s = false -> more_to_do (s_plan s) = true -> 0 < s_fa s ->
+  length (s_running s) < c_j cfg -> In e (p_ready (s_plan s)) -> token_ok cfg (s_plan s) = true ->
+  phony g e = false -> exists s', step g cfg s (EvStart e prio) = Some s'.
+Proof.
+  intros H1 H2 H3 H4 H5 H6 H7 H8. unfold step. cbn [step_res].
+  rewrite H1, H2, H3, H7, H8. cbn [negb andb].
+  assert (E1 : (0 <? s_fa s) = true) by (apply Nat.ltb_lt; exact H4).
+  assert (E2 : (0 <? capacity cfg s) = true) by (apply Nat.ltb_lt; unfold capacity; lia).
+  assert (E3 : memb e (p_ready (s_plan s)) = true) by (apply memb_In; exact H6).
+  rewrite E1, E2, E3. cbn [andb]. eexists. reflexivity.
+Qed.
+
+(* ------------------------------------------------------------------ C05 *)
+Inductive depends : nat -> nat -> Prop :=
+| dep_direct d e : In e (ins g d) -> depends d e
+| dep_trans d i e : In i (ins g d) -> depends i e -> depends d e.
+
+Lemma failed_blocks s e d : core s -> In e (s_failed s) -> depends d e ->
+  all_inputs_ready g (s_plan s) d = false /\ p_oready (s_plan s) d = false.
+Proof.
+  intros C He Hd. pose proof (co_pinv s C) as HP.
+  assert (Hblock : forall i x, In i (ins g x) -> p_oready (s_plan s) i = false ->
+            all_inputs_ready g (s_plan s) x = false /\ p_oready (s_plan s) x = false).
+  { intros i x Hi Ho.
+    assert (Ha : all_inputs_ready g (s_plan s) x = false).
+    { destruct (all_inputs_ready g (s_plan s) x) eqn:E; [|reflexivity].
+      rewrite (air_in g _ x i E Hi) in Ho. discriminate. }
+    split; [exact Ha|]. destruct (p_oready (s_plan s) x) eqn:E; [|reflexivity].
+    rewrite (pi_oready_closed _ _ _ _ _ HP x E) in Ha. discriminate. }
+  induction Hd as [d e Hin|d i e Hin Hd IH].
+  - apply (Hblock e d Hin).
+    destruct (pi_sched _ _ _ _ _ HP e (in_sched_F _ _ _ e He)) as [Hw _].
+    destruct (p_oready (s_plan s) e) eqn:E; [|reflexivity].
+    unfold is_wanted in Hw. rewrite (pi_oready _ _ _ _ _ HP e E) in Hw. discriminate.
+  - apply (Hblock i d Hin). apply (IH He).
+Qed.
+
+Lemma step_failed s ev s' : step g cfg s ev = Some s' ->
+  s_failed s' = s_failed s \/
+  exists e c pr, ev = EvFinish e c pr /\ c <> 0 /\ s_failed s' = e :: s_failed s.
+Proof.
+  unfold step. destruct (step_res g cfg s ev) as [s1| |] eqn:E; try discriminate. intros H. injection H as <-.
+  destruct ev as [e prio| |e|e code prio| |code m]; cbn [step_res] in E.
+  - match type of E with (if ?X then _ else _) = _ => destruct X; [|discriminate] end.
+    destruct (phony g e).
+    + match type of E with (match ?X with _ => _ end) = _ => destruct X; try discriminate end.
+      injection E as <-. left. reflexivity.
+    + injection E as <-. left. reflexivity.
+  - match type of E with (if ?X then _ else _) = _ => destruct X; [|discriminate] end.
+    injection E as <-. left. reflexivity.
+  - match type of E with (if ?X then _ else _) = _ => destruct X; [|discriminate] end.
+    destruct (p_wanted (s_plan s)); [discriminate|]. destruct (phony g e).
+    + injection E as <-. left. reflexivity.
+    + match type of E with (match ?X with _ => _ end) = _ => destruct X; try discriminate end.
+      destruct (s_total s); [discriminate|]. injection E as <-. left. reflexivity.
+  - match type of E with (if ?X then _ else _) = _ => destruct X; [|discriminate] end.
+    destruct (s_pending s); [discriminate|].
+    destruct (Nat.eqb_spec code 0) as [Hc|Hc].
+    + match type of E with (match ?X with _ => _ end) = _ => destruct X; try discriminate end.
+      injection E as <-. left. reflexivity.
+    + match type of E with (match ?X with _ => _ end) = _ => destruct X; try discriminate end.
+      injection E as <-. right. exists e, code, prio. repeat split. exact Hc.
+  - match type of E with (if ?X then _ else _) = _ => destruct X; [|discriminate] end.
+    injection E as <-. left. reflexivity.
+  - destruct (s_phase s).
+    + destruct (s_waiting s); [discriminate|].
+      match type of E with (match ?X with _ => _ end) = _ => destruct X as [[c m']|]; [|discriminate] end.
+      match type of E with (if ?X then _ else _) = _ => destruct X; [|discriminate] end.
+      injection E as <-. left. reflexivity.
+    + match type of E with (if ?X then _ else _) = _ => destruct X; [|discriminate] end.
+      injection E as <-. left. reflexivity.
+    + discriminate.
+Qed.
+
+Lemma accepts_failed_mono evs : forall s s' e,
+  accepts g cfg s evs = Some s' -> In e (s_failed s) -> In e (s_failed s').
+Proof.
+  induction evs as [|ev evs IH]; intros s s' e Ha He; cbn [accepts] in Ha.
+  - injection Ha as <-. exact He.
+  - destruct (step g cfg s ev) as [s1|] eqn:E; [|discriminate].
+    apply (IH s1 s' e Ha). destruct (step_failed s ev s1 E) as [H|[e' [c [pr [_ [_ H]]]]]]; rewrite H; [exact He|right; exact He].
+Qed.
+
+Theorem no_dependent_started prio sn evs1 e c pr evs2 s :
+  wf_snap sn -> run g cfg prio sn (evs1 ++ EvFinish e c pr :: evs2) = Some s -> c <> 0 ->
+  forall d pr', In (EvStart d pr') evs2 -> ~ depends d e /\ d <> e.
+Proof.
+  intros Hws Hr Hc d pr' Hin. unfold run in Hr. rewrite accepts_app in Hr.
+  destruct (accepts g cfg (init_state g cfg prio sn) evs1) as [s1|] eqn:E1; [|discriminate].
+  cbn [accepts] in Hr. destruct (step g cfg s1 (EvFinish e c pr)) as [s2|] eqn:E2; [|discriminate].
+  assert (Hf2 : In e (s_failed s2)).
+  { destruct (step_failed s1 _ s2 E2) as [H|[e' [c' [pr'' [Heq [_ H]]]]]].
+    - exfalso. unfold step in E2. cbn [step_res] in E2.
+      match type of E2 with match (if ?X then _ else _) with _ => _ end = _ => destruct X; [|discriminate] end.
+      destruct (s_pending s1); [discriminate|]. destruct (Nat.eqb_spec c 0) as [H0|H0]; [contradiction|].
+      match type of E2 with match (match ?X with _ => _ end) with _ => _ end = _ => destruct X; try discriminate end.
+      injection E2 as <-. cbn [s_failed] in H. clear -H. induction (s_failed s1) as [|a l IH]; [discriminate|].
+      injection H as H1 H2. subst a. apply IH. exact H2.
+    - injection Heq as <- <- <-. rewrite H. left. reflexivity. }
+  assert (HI2 : sinv s2).
+  { apply (sinv_step s1 (EvFinish e c pr) s2); [|exact E2]. apply (sinv_accepts evs1 _ s1 (sinv_init prio sn Hws) E1). }
+  apply in_split in Hin. destruct Hin as [a [b Hab]]. subst evs2. rewrite accepts_app in Hr.
+  destruct (accepts g cfg s2 a) as [s3|] eqn:E3; [|discriminate].
+  cbn [accepts] in Hr. destruct (step g cfg s3 (EvStart d pr')) as [s4|] eqn:E4; [|discriminate].
+  pose proof (accepts_failed_mono a s2 s3 e E3 Hf2) as Hf3.
+  pose proof (sinv_accepts a s2 s3 HI2 E3) as HI3.
+  assert (C3 : core s3) by (apply (core_of_step s3 _ s4 HI3 E4); intros c0 m; discriminate).
+  unfold step in E4. cbn [step_res] in E4.
+  destruct (in_build s3 && negb (s_waiting s3) && more_to_do (s_plan s3) && (0 <? s_fa s3)
+            && (0 <? capacity cfg s3) && memb d (p_ready (s_plan s3)) && token_ok cfg (s_plan s3)) eqn:G;
+    [|discriminate].
+  peel G G2. peel G G0. apply memb_In in G0.
+  destruct (pi_sched _ _ _ _ _ (co_pinv s3 C3) d (in_sched_R _ _ _ d G0)) as [_ Ha].
+  split.
+  - intros Hd. destruct (failed_blocks s3 e d C3 Hf3 Hd) as [H _]. congruence.
+  - intros ->. pose proof (pi_nodup _ _ _ _ _ (co_pinv s3 C3)) as Hnd. unfold sched in Hnd.
+    apply NoDup_app_iff in Hnd. destruct Hnd as [_ [_ Hd]]. apply (Hd e G0).
+    apply in_or_app. right. apply in_or_app. right. exact Hf3.
+Qed.
+
+Lemma exit_msg_eqb_eq a b : exit_msg_eqb a b = true -> a = b.
+Proof. destruct a, b; cbn; intros H; try discriminate; reflexivity. Qed.
+
+Definition fail_msg (s : state) : exit_msg :=
+  if Nat.eqb (s_fa s) 0 then MSubcommandFailed
+  else if s_fa s <? c_k cfg then MCannotProgress else MStuck.
+
+Lemma exit_build s code m s' : s_phase s = PhBuild -> step g cfg s (EvExit code m) = Some s' ->
+  s_waiting s = false /\ s_running s' = s_running s /\
+  ((more_to_do (s_plan s) = false /\ code = 0 /\ m = MSuccess) \/
+   (more_to_do (s_plan s) = true /\ s_pending s = 0 /\ can_start cfg s = false /\
+    code = s_exit s /\ m = fail_msg s)).
+Proof.
+  intros Hph Hst. unfold step in Hst. cbn [step_res] in Hst. rewrite Hph in Hst.
+  destruct (s_waiting s); [discriminate|]. split; [reflexivity|].
+  destruct (more_to_do (s_plan s)) eqn:Em; cbn [negb] in Hst.
+  - destruct (Nat.eqb_spec (s_pending s) 0) as [Hp|Hp]; cbn [andb] in Hst; [|discriminate].
+    destruct (can_start cfg s) eqn:Ec; cbn [negb] in Hst; [discriminate|].
+    fold (fail_msg s) in Hst.
+    destruct (Nat.eqb_spec (s_exit s) code) as [He|He]; cbn [andb] in Hst; [|discriminate].
+    destruct (exit_msg_eqb m (fail_msg s)) eqn:Emsg; [|discriminate].
+    injection Hst as <-. split; [reflexivity|]. right. repeat split; try assumption; [symmetry; exact He|].
+    apply exit_msg_eqb_eq. exact Emsg.
+  - destruct (Nat.eqb_spec 0 code) as [He|He]; cbn [andb] in Hst; [|discriminate].
+    destruct (exit_msg_eqb m MSuccess) eqn:Emsg; [|discriminate].
+    injection Hst as <-. split; [reflexivity|]. left. repeat split; [symmetry; exact He|apply exit_msg_eqb_eq; exact Emsg].
+Qed.
+
+Lemma exit_interrupted_phase s code m s' : s_phase s = PhInterrupted ->
+  step g cfg s (EvExit code m) = Some s' -> code = exit_interrupted /\ m = MInterrupted.
+Proof.
+  intros Hph Hst. unfold step in Hst. cbn [step_res] in Hst. rewrite Hph in Hst.
+  destruct (Nat.eqb_spec code exit_interrupted) as [He|He]; cbn [andb] in Hst; [|discriminate].
+  destruct (exit_msg_eqb m MInterrupted) eqn:Em; [|discriminate].
+  split; [exact He|apply exit_msg_eqb_eq; exact Em].
+Qed.
+
+(* a wanted, non-phony edge keeps more_to_do true *)
+Lemma more_to_do_of_wanted s e : core s -> is_wanted (p_want (s_plan s)) e = true -> phony g e = false ->
+  more_to_do (s_plan s) = true.
+Proof.
+  intros C Hw Hph. pose proof (co_pinv s C) as HP.
+  assert (Hlt : e < n_edges g).
+  { apply (pi_range _ _ _ _ _ HP). unfold is_wanted in Hw. destruct (p_want (s_plan s) e); [discriminate|discriminate Hw]. }
+  assert (H1 : 1 <= p_wanted (s_plan s)).
+  { rewrite (pi_wanted _ _ _ _ _ HP). apply (count_ge_one _ _ e (all_edges_in e Hlt) Hw). }
+  assert (H2 : 1 <= npw (s_plan s)).
+  { unfold npw, npwf. apply (count_ge_one _ _ e (all_edges_in e Hlt)). rewrite Hw, Hph. reflexivity. }
+  pose proof (co_commands s C) as H3. pose proof (co_fin_failed s C) as H4.
+  unfold more_to_do. apply andb_true_iff. split; apply Nat.ltb_lt; lia.
+Qed.
+
+Lemma more_to_do_of_active s e : core s -> In e (s_running s ++ s_failed s) -> more_to_do (s_plan s) = true.
+Proof.
+  intros C He. apply (more_to_do_of_wanted s e C); [|apply (co_nophony s C e He)].
+  apply (pi_sched _ _ _ _ _ (co_pinv s C) e). unfold sched. apply in_or_app. right. apply in_or_app. right. exact He.
+Qed.
+
+(* Builder::exit_code_ follows the failing completions *)
+Definition exit_track (x : nat) (evs : list event) : nat :=
+  fold_left (fun acc ev => match ev with
+                           | EvFinish _ c _ => if Nat.eqb c 0 then acc else c
+                           | _ => acc
+                           end) evs x.
+
+Lemma step_exit_code s ev s' : step g cfg s ev = Some s' -> s_exit s' = exit_track (s_exit s) [ev].
+Proof.
+  unfold step. destruct (step_res g cfg s ev) as [s1| |] eqn:E; try discriminate. intros H. injection H as <-.
+  cbn [exit_track fold_left].
+  destruct ev as [e prio| |e|e code prio| |code m]; cbn [step_res] in E.
+  - match type of E with (if ?X then _ else _) = _ => destruct X; [|discriminate] end.
+    destruct (phony g e).
+    + match type of E with (match ?X with _ => _ end) = _ => destruct X; try discriminate end.
+      injection E as <-. reflexivity.
+    + injection E as <-. reflexivity.
+  - match type of E with (if ?X then _ else _) = _ => destruct X; [|discriminate] end.
+    injection E as <-. reflexivity.
+  - match type of E with (if ?X then _ else _) = _ => destruct X; [|discriminate] end.
+    destruct (p_wanted (s_plan s)); [discriminate|]. destruct (phony g e).
+    + injection E as <-. reflexivity.
+    + match type of E with (match ?X with _ => _ end) = _ => destruct X; try discriminate end.
+      destruct (s_total s); [discriminate|]. injection E as <-. reflexivity.
+  - match type of E with (if ?X then _ else _) = _ => destruct X; [|discriminate] end.
+    destruct (s_pending s); [discriminate|].
+    destruct (Nat.eqb code 0).
+    + match type of E with (match ?X with _ => _ end) = _ => destruct X; try discriminate end.
+      injection E as <-. reflexivity.
+    + match type of E with (match ?X with _ => _ end) = _ => destruct X; try discriminate end.
+      injection E as <-. reflexivity.
+  - match type of E with (if ?X then _ else _) = _ => destruct X; [|discriminate] end.
+    injection E as <-. reflexivity.
+  - destruct (s_phase s).
+    + destruct (s_waiting s); [discriminate|].
+      match type of E with (match ?X with _ => _ end) = _ => destruct X as [[c m']|]; [|discriminate] end.
+      match type of E with (if ?X then _ else _) = _ => destruct X; [|discriminate] end.
+      injection E as <-. reflexivity.
+    + match type of E with (if ?X then _ else _) = _ => destruct X; [|discriminate] end.
+      injection E as <-. reflexivity.
+    + discriminate.
+Qed.
+
+Lemma accepts_exit_code evs : forall s s', accepts g cfg s evs = Some s' -> s_exit s' = exit_track (s_exit s) evs.
+Proof.
+  induction evs as [|ev evs IH]; intros s s' Ha; cbn [accepts] in Ha.
+  - injection Ha as <-. reflexivity.
+  - destruct (step g cfg s ev) as [s1|] eqn:E; [|discriminate].
+    rewrite (IH s1 s' Ha). rewrite (step_exit_code s ev s1 E). reflexivity.
+Qed.
+
+(* the tracked code is the code of the LAST failing completion *)
+Lemma exit_track_last x a e c pr b : c <> 0 ->
+  (forall e' c' pr', In (EvFinish e' c' pr') b -> c' = 0) ->
+  exit_track x (a ++ EvFinish e c pr :: b) = c.
+Proof.
+  intros Hc Hb. unfold exit_track. rewrite fold_left_app. cbn [fold_left].
+  destruct (Nat.eqb_spec c 0) as [H|_]; [contradiction|].
+  induction b as [|ev b IH]; cbn [fold_left]; [reflexivity|].
+  assert (Hb' : forall e' c' pr', In (EvFinish e' c' pr') b -> c' = 0) by (intros e' c' pr' H; apply (Hb e' c' pr'); right; exact H).
+  destruct ev as [e0 p0| |e0|e0 c0 p0| |c0 m0]; try (apply IH; exact Hb').
+  rewrite (Hb e0 c0 p0 (or_introl eq_refl)). cbn [Nat.eqb]. apply IH. exact Hb'.
+Qed.
+
+Lemma accepts_fail_failed evs : forall s s' e c pr,
+  accepts g cfg s evs = Some s' -> In (EvFinish e c pr) evs -> c <> 0 -> s_failed s' <> [].
+Proof.
+  induction evs as [|ev evs IH]; intros s s' e c pr Ha Hin Hc; [destruct Hin|].
+  cbn [accepts] in Ha. destruct (step g cfg s ev) as [s1|] eqn:E; [|discriminate].
+  destruct Hin as [->|Hin]; [|apply (IH s1 s' e c pr Ha Hin Hc)].
+  assert (Hf : In e (s_failed s1)).
+  { destruct (step_failed s _ s1 E) as [H|[e' [c' [pr'' [Heq [_ H]]]]]].
+    - exfalso. unfold step in E. cbn [step_res] in E.
+      match type of E with match (if ?X then _ else _) with _ => _ end = _ => destruct X; [|discriminate] end.
+      destruct (s_pending s); [discriminate|]. destruct (Nat.eqb_spec c 0) as [H0|H0]; [contradiction|].
+      match type of E with match (match ?X with _ => _ end) with _ => _ end = _ => destruct X; try discriminate end.
+      injection E as <-. cbn [s_failed] in H. clear -H. induction (s_failed s) as [|a l IHl]; [discriminate|].
+      injection H as H1 H2. subst a. apply IHl. exact H2.
+    - injection Heq as <- <- <-. rewrite H. left. reflexivity. }
+  pose proof (accepts_failed_mono evs s1 s' e Ha Hf) as H. intros Hn. rewrite Hn in H. destruct H.
+Qed.
+
+Theorem exit_code_of_failure prio sn evs code m s :
+  wf_snap sn -> run g cfg prio sn (evs ++ [EvExit code m]) = Some s ->
+  (exists e c pr, In (EvFinish e c pr) evs /\ c <> 0) ->
+  code <> 0 /\ (m <> MInterrupted -> code = exit_track 0 evs /\ m <> MSuccess).
+Proof.
+  intros Hws Hr [e [c [pr [Hin Hc]]]]. unfold run in Hr. rewrite accepts_app in Hr.
+  destruct (accepts g cfg (init_state g cfg prio sn) evs) as [s1|] eqn:E1; [|discriminate].
+  cbn [accepts] in Hr. destruct (step g cfg s1 (EvExit code m)) as [s2|] eqn:E2; [|discriminate].
+  pose proof (sinv_accepts evs _ s1 (sinv_init prio sn Hws) E1) as [HC _].
+  pose proof (accepts_fail_failed evs _ s1 e c pr E1 Hin Hc) as Hf.
+  pose proof (accepts_exit_code evs _ s1 E1) as Hx. cbn [init_state s_exit] in Hx.
+  destruct (s_phase s1) eqn:Eph.
+  - specialize (HC eq_refl).
+    destruct (exit_build s1 code m s2 Eph E2) as [_ [_ [[Hm _]|[_ [_ [_ [Hcode Hm]]]]]]].
+    + exfalso. destruct (s_failed s1) as [|x l] eqn:Ef; [congruence|].
+      assert (Hx' : In x (s_running s1 ++ s_failed s1)) by (rewrite Ef; apply in_or_app; right; left; reflexivity).
+      rewrite (more_to_do_of_active s1 x HC Hx') in Hm. discriminate.
+    + subst code. split; [apply (co_exit1 s1 HC Hf)|]. intros _. split; [exact Hx|].
+      rewrite Hm. unfold fail_msg. destruct (Nat.eqb (s_fa s1) 0); [discriminate|].
+      destruct (s_fa s1 <? c_k cfg); discriminate.
+  - destruct (exit_interrupted_phase s1 code m s2 Eph E2) as [-> ->].
+    split; [unfold exit_interrupted; lia|]. intros H. congruence.
+  - unfold step in E2. cbn [step_res] in E2. rewrite Eph in E2. discriminate.
+Qed.
+
+(* once the budget is used up nothing is started *)
+Theorem no_start_without_budget s e prio : s_fa s = 0 -> step g cfg s (EvStart e prio) = None.
+Proof.
+  intros H. unfold step. cbn [step_res]. rewrite H. cbn [Nat.ltb Nat.leb].
+  rewrite !andb_false_r. cbn [andb]. reflexivity.
+Qed.
+
+Theorem exit_reaped s code m s' : reachable s -> step g cfg s (EvExit code m) = Some s' ->
+  m <> MInterrupted -> s_running s = [] /\ s_running s' = [].
+Proof.
+  intros Hr Hst Hm. destruct (reachable_sinv s Hr) as [HC _].
+  destruct (s_phase s) eqn:Eph.
+  - specialize (HC eq_refl).
+    destruct (exit_build s code m s' Eph Hst) as [_ [Hrun [[Hmore _]|[_ [Hp _]]]]]; rewrite Hrun.
+    + destruct (s_running s) as [|x l] eqn:Er; [split; reflexivity|].
+      assert (Hx : In x (s_running s ++ s_failed s)) by (rewrite Er; left; reflexivity).
+      rewrite (more_to_do_of_active s x HC Hx) in Hmore. discriminate.
+    + rewrite (co_pending s HC) in Hp. destruct (s_running s); [split; reflexivity|discriminate].
+  - destruct (exit_interrupted_phase s code m s' Eph Hst) as [_ ->]. congruence.
+  - unfold step in Hst. cbn [step_res] in Hst. rewrite Eph in Hst. discriminate.
+Qed.
+
+(* ------------------------------------------------------------------ C06 *)
+Theorem limits s : reachable s ->
+  length (s_running s) <= c_j cfg /\
+  (forall q, 0 < depth g q -> cnt g q (s_running s) <= depth g q) /\
+  (forall n, c_jobserver cfg = Some n -> length (s_running s) <= S n).
+Proof.
+  intros Hr. destruct (reachable_sinv s Hr) as [_ [L1 L2 L3]].
+  split; [exact L1|]. split; [exact L2|]. intros n Hn. rewrite Hn in L3. exact L3.
+Qed.
+
+(* in the build phase the jobserver slots held are exactly the running commands *)
+Theorem tokens_held s : reachable s -> s_phase s = PhBuild ->
+  p_tokens (s_plan s) = match c_jobserver cfg with None => 0 | Some _ => length (s_running s) end.
+Proof.
+  intros Hr Hph. destruct (reachable_sinv s Hr) as [HC _]. specialize (HC Hph).
+  apply (pi_tokens _ _ _ _ _ (co_pinv s HC)).
+Qed.
+
+Theorem wait_only_when_no_start s s' : step g cfg s EvWait = Some s' ->
+  can_start cfg s = false /\
+  (s_fa s = 0 \/ c_j cfg <= length (s_running s) \/ p_ready (s_plan s) = [] \/ token_ok cfg (s_plan s) = false).
+Proof.
+  unfold step. cbn [step_res].
+  destruct (in_build s && negb (s_waiting s) && more_to_do (s_plan s) && (0 <? s_pending s)
+            && negb (can_start cfg s)) eqn:G; [|discriminate].
+  intros _. peel G Gc. apply negb_true_iff in Gc. split; [exact Gc|].
+  unfold can_start in Gc. unfold capacity in Gc.
+  destruct (Nat.ltb_spec 0 (s_fa s)) as [H1|H1]; [|left; lia].
+  destruct (Nat.ltb_spec 0 (c_j cfg - length (s_running s))) as [H2|H2]; [|right; left; lia].
+  destruct (p_ready (s_plan s)) as [|x l]; [right; right; left; reflexivity|].
+  cbn [andb] in Gc. right. right. right. exact Gc.
+Qed.
+
+Lemma idle_no_want p : pinv QT [] [] [] p -> p_ready p = [] -> forall e, p_want p e = None.
+Proof.
+  intros [I1 I2 I3 I4 I5 I6 I7 I8 I9 I10 I11 I12 I13 I14 I15] HR.
+  assert (HD0 : forall d, ~ In d (p_delayed p)).
+  { intros d Hd.
+    pose proof (I13 d Hd) as Hdep. destruct (I11 _ Hdep) as [Hu _].
+    assert (Hne : delayed_of g (pool g d) (p_delayed p) <> []).
+    { intros Hn. assert (H : In d (delayed_of g (pool g d) (p_delayed p))) by (apply delayed_of_In; split; [exact Hd|reflexivity]).
+      rewrite Hn in H. destruct H. }
+    rewrite (I12 _ I Hdep Hne) in Hu. rewrite HR in Hu. unfold cnt in Hu. cbn in Hu. lia. }
+  assert (HD : p_delayed p = []).
+  { destruct (p_delayed p) as [|d l]; [reflexivity|]. exfalso. apply (HD0 d). left. reflexivity. }
+  assert (Hs : sched p [] [] = []) by (unfold sched; rewrite HR, HD; reflexivity).
+  rewrite Hs in *.
+  assert (H : forall n e, rank e < n -> p_want p e = None).
+  { induction n as [|n IH]; intros e He; [lia|].
+    destruct (p_want p e) as [w|] eqn:Ew; [|reflexivity]. exfalso.
+    destruct (all_inputs_ready g p e) eqn:Ea.
+    - destruct w.
+      + apply (I5 e Ew Ea).
+      + destruct (I4 e Ew Ea) as [[]|[]].
+      + apply (I3 e Ew).
+    - destruct (air_false g p e Ea) as [i [Hi Ho]].
+      assert (Hwi : p_want p i <> None) by (apply (I9 e i); [congruence|exact Hi|exact Ho]).
+      apply Hwi. apply IH. pose proof (wg_rank g rank Hwf e i Hi). lia. }
+  intros e. apply (H (S (rank e))). lia.
+Qed.
+
+Theorem never_stuck s code : reachable s -> step g cfg s (EvExit code MStuck) = None.
+Proof.
+  intros Hr. destruct (step g cfg s (EvExit code MStuck)) as [s'|] eqn:Hst; [exfalso|reflexivity].
+  destruct (reachable_sinv s Hr) as [HC _].
+  destruct (s_phase s) eqn:Eph.
+  - specialize (HC eq_refl).
+    destruct (exit_build s code MStuck s' Eph Hst) as [_ [_ [[_ [_ Hm]]|[Hmore [Hp [Hcs [_ Hm]]]]]]]; [discriminate|].
+    unfold fail_msg in Hm. destruct (Nat.eqb_spec (s_fa s) 0) as [H0|H0]; [discriminate|].
+    destruct (Nat.ltb_spec (s_fa s) (c_k cfg)) as [H1|H1]; [discriminate|].
+    assert (Hfa : s_fa s = c_k cfg) by (pose proof (co_fa s HC); lia).
+    pose proof (co_fa_k s HC Hfa) as HF.
+    assert (HU : s_running s = []) by (rewrite (co_pending s HC) in Hp; destruct (s_running s); [reflexivity|discriminate]).
+    pose proof (co_pinv s HC) as HP. rewrite HU, HF in HP.
+    assert (HR : p_ready (s_plan s) = []).
+    { unfold can_start in Hcs. unfold capacity in Hcs. rewrite HU in Hcs. cbn [length] in Hcs.
+      assert (E1 : (0 <? s_fa s) = true) by (apply Nat.ltb_lt; lia).
+      assert (E2 : (0 <? c_j cfg - 0) = true) by (apply Nat.ltb_lt; lia).
+      assert (E3 : token_ok cfg (s_plan s) = true).
+      { unfold token_ok. rewrite (pi_tokens _ _ _ _ _ HP). destruct (c_jobserver cfg); reflexivity. }
+      rewrite E1, E2, E3 in Hcs. cbn [andb] in Hcs. rewrite andb_true_r in Hcs.
+      destruct (p_ready (s_plan s)); [reflexivity|discriminate]. }
+    pose proof (idle_no_want _ HP HR) as Hnone.
+    assert (Hw0 : p_wanted (s_plan s) = 0).
+    { rewrite (pi_wanted _ _ _ _ _ HP). unfold count_if.
+      assert (Hf : filter (is_wanted (p_want (s_plan s))) (all_edges g) = []).
+      { induction (all_edges g) as [|x l IH]; [reflexivity|]. cbn [filter]. unfold is_wanted at 1. rewrite Hnone. exact IH. }
+      rewrite Hf. reflexivity. }
+    unfold more_to_do in Hmore. rewrite Hw0 in Hmore. discriminate.
+  - destruct (exit_interrupted_phase s code MStuck s' Eph Hst) as [_ H]. discriminate.
+  - unfold step in Hst. cbn [step_res] in Hst. rewrite Eph in Hst. discriminate.
+Qed.
+
+(* no edge is started twice *)
+Definition was_started (s : state) (e : nat) : Prop :=
+  In e (s_running s) \/ In e (s_failed s) \/ p_oready (s_plan s) e = true.
+
+Lemma was_started_not_ready s e : core s -> was_started s e -> ~ In e (p_ready (s_plan s)).
+Proof.
+  intros C Hws Hin. pose proof (co_pinv s C) as HP. pose proof (pi_nodup _ _ _ _ _ HP) as Hnd.
+  unfold sched in Hnd. apply NoDup_app_iff in Hnd. destruct Hnd as [_ [_ Hd]].
+  destruct Hws as [H|[H|H]].
+  - apply (Hd e Hin). apply in_or_app. right. apply in_or_app. left. exact H.
+  - apply (Hd e Hin). apply in_or_app. right. apply in_or_app. right. exact H.
+  - destruct (pi_sched _ _ _ _ _ HP e (in_sched_R _ _ _ e Hin)) as [Hw _].
+    unfold is_wanted in Hw. rewrite (pi_oready _ _ _ _ _ HP e H) in Hw. discriminate.
+Qed.
+
+Lemma step_was_started s ev s' e : core s -> step g cfg s ev = Some s' ->
+  (was_started s e \/ exists pr, ev = EvStart e pr) -> s_phase s' = PhBuild -> was_started s' e.
+Proof.
+  intros C Hst Hws Hph'. unfold step in Hst.
+  destruct (step_res g cfg s ev) as [s1| |] eqn:E; try discriminate. injection Hst as <-.
+  destruct ev as [d prio| |d|d code prio| |code m]; cbn [step_res] in E.
+  - match type of E with (if ?X then _ else _) = _ => destruct X eqn:G; [|discriminate] end.
+    peel G G2. peel G G0. apply memb_In in G0.
+    pose proof (start_pop_pinv (s_plan s) (s_running s) (s_failed s) d (co_pinv s C) G0) as HP.
+    set (p2 := match c_jobserver cfg with
+               | None => set_ready (s_plan s) (rem d (p_ready (s_plan s)))
+               | Some _ => _ end) in *.
+    assert (Hp2o : p_oready p2 = p_oready (s_plan s)) by (unfold p2; destruct (c_jobserver cfg); reflexivity).
+    destruct (phony g d) eqn:Eph.
+    + destruct (edge_finished (plan_fuel g) g cfg prio d true true p2) as [p3| |] eqn:Eef; try discriminate.
+      injection E as <-. unfold was_started, set_plan. cbn [s_plan s_running s_failed].
+      destruct (pi_sched _ _ _ _ _ HP d (in_sched_A p2 (d :: s_running s) (s_failed s) d (or_introl eq_refl))) as [Hw _].
+      unfold is_wanted in Hw. destruct (p_want p2 d) as [w|] eqn:Ew; [|discriminate].
+      assert (Hwn : w <> WNothing) by (intros ->; discriminate).
+      pose proof (ef_top_evol _ _ _ true _ _ w Ew Hwn Eef) as Hev. cbn in Hev.
+      destruct Hws as [[H|[H|H]]|[pr Heq]].
+      * left. exact H.
+      * right. left. exact H.
+      * right. right. apply (ev_mono _ _ _ _ Hev). unfold upd. destruct (Nat.eqb e d); [reflexivity|]. rewrite Hp2o. exact H.
+      * injection Heq as ->. right. right. apply (ev_mono _ _ _ _ Hev). apply upd_same.
+    + injection E as <-. unfold was_started. cbn [s_plan s_running s_failed].
+      destruct Hws as [[H|[H|H]]|[pr Heq]].
+      * left. right. exact H.
+      * right. left. exact H.
+      * right. right. rewrite Hp2o. exact H.
+      * injection Heq as ->. left. left. reflexivity.
+  - match type of E with (if ?X then _ else _) = _ => destruct X; [|discriminate] end.
+    injection E as <-. destruct Hws as [H|[pr Heq]]; [exact H|discriminate].
+  - match type of E with (if ?X then _ else _) = _ => destruct X; [|discriminate] end.
+    destruct (p_wanted (s_plan s)); [discriminate|].
+    destruct Hws as [H|[pr Heq]]; [|discriminate].
+    destruct (phony g d).
+    + injection E as <-. exact H.
+    + match type of E with (match ?X with _ => _ end) = _ => destruct X; try discriminate end.
+      destruct (s_total s); [discriminate|]. injection E as <-. exact H.
+  - match type of E with (if ?X then _ else _) = _ => destruct X eqn:G; [|discriminate] end.
+    peel G Gcode. peel G G1. apply memb_In in G1.
+    destruct (s_pending s); [discriminate|].
+    destruct Hws as [Hws|[pr Heq]]; [|discriminate].
+    destruct (pi_sched _ _ _ _ _ (co_pinv s C) d (in_sched_A _ _ _ d G1)) as [Hw _].
+    unfold is_wanted in Hw. destruct (p_want (s_plan s) d) as [w|] eqn:Ew; [|discriminate].
+    assert (Hwn : w <> WNothing) by (intros ->; discriminate).
+    destruct (Nat.eqb code 0).
+    + destruct (edge_finished (plan_fuel g) g cfg prio d true true (s_plan s)) as [p'| |] eqn:Eef; try discriminate.
+      injection E as <-. unfold was_started. cbn [s_plan s_running s_failed].
+      pose proof (ef_top_evol _ _ _ true _ _ w Ew Hwn Eef) as Hev. cbn in Hev.
+      destruct (Nat.eq_dec e d) as [->|Hne].
+      * right. right. apply (ev_mono _ _ _ _ Hev). apply upd_same.
+      * destruct Hws as [H|[H|H]].
+        -- left. apply rem_In. split; assumption.
+        -- right. left. exact H.
+        -- right. right. apply (ev_mono _ _ _ _ Hev). rewrite upd_other by exact Hne. exact H.
+    + destruct (edge_finished (plan_fuel g) g cfg prio d false true (s_plan s)) as [p'| |] eqn:Eef; try discriminate.
+      injection E as <-. unfold was_started. cbn [s_plan s_running s_failed].
+      pose proof (ef_top_evol _ _ _ false _ _ w Ew Hwn Eef) as Hev. cbn in Hev.
+      destruct (Nat.eq_dec e d) as [->|Hne].
+      * right. left. left. reflexivity.
+      * destruct Hws as [H|[H|H]].
+        -- left. apply rem_In. split; assumption.
+        -- right. left. right. exact H.
+        -- right. right. apply (ev_mono _ _ _ _ Hev). exact H.
+  - match type of E with (if ?X then _ else _) = _ => destruct X; [|discriminate] end.
+    injection E as <-. cbn [s_phase] in Hph'. discriminate.
+  - destruct (s_phase s).
+    + destruct (s_waiting s); [discriminate|].
+      match type of E with (match ?X with _ => _ end) = _ => destruct X as [[c m']|]; [|discriminate] end.
+      match type of E with (if ?X then _ else _) = _ => destruct X; [|discriminate] end.
+      injection E as <-. cbn [s_phase] in Hph'. discriminate.
+    + match type of E with (if ?X then _ else _) = _ => destruct X; [|discriminate] end.
+      injection E as <-. cbn [s_phase] in Hph'. discriminate.
+    + discriminate.
+Qed.
+
+Lemma step_phase_stuck s ev s' : step g cfg s ev = Some s' -> s_phase s <> PhBuild -> s_phase s' <> PhBuild.
+Proof.
+  intros Hst Hph. destruct ev as [d prio| |d|d code prio| |code m];
+    try (exfalso; apply Hph; apply (step_in_build s _ s' Hst); intros c m; discriminate).
+  unfold step in Hst. cbn [step_res] in Hst. destruct (s_phase s); [congruence| |discriminate].
+  match type of Hst with match (if ?X then _ else _) with _ => _ end = _ => destruct X; [|discriminate] end.
+  injection Hst as <-. cbn [s_phase]. discriminate.
+Qed.
+
+Lemma accepts_was_started evs : forall s s' e, sinv s -> s_phase s = PhBuild -> was_started s e ->
+  accepts g cfg s evs = Some s' -> s_phase s' = PhBuild -> was_started s' e.
+Proof.
+  induction evs as [|ev evs IH]; intros s s' e HI Hph Hws Ha Hph'; cbn [accepts] in Ha.
+  - injection Ha as <-. exact Hws.
+  - destruct (step g cfg s ev) as [s1|] eqn:E; [|discriminate].
+    assert (Hph1 : s_phase s1 = PhBuild).
+    { destruct (s_phase s1) eqn:E1; [reflexivity| |]; exfalso.
+      - assert (H : forall evs s s', accepts g cfg s evs = Some s' -> s_phase s <> PhBuild -> s_phase s' <> PhBuild).
+        { clear. induction evs as [|ev evs IH]; intros s s' Ha Hn; cbn [accepts] in Ha; [injection Ha as <-; exact Hn|].
+          destruct (step g cfg s ev) as [s1|] eqn:E; [|discriminate].
+          apply (IH s1 s' Ha). apply (step_phase_stuck s ev s1 E Hn). }
+        apply (H evs s1 s' Ha); [rewrite E1; discriminate|exact Hph'].
+      - assert (H : forall evs s s', accepts g cfg s evs = Some s' -> s_phase s <> PhBuild -> s_phase s' <> PhBuild).
+        { clear. induction evs as [|ev evs IH]; intros s s' Ha Hn; cbn [accepts] in Ha; [injection Ha as <-; exact Hn|].
+          destruct (step g cfg s ev) as [s1|] eqn:E; [|discriminate].
+          apply (IH s1 s' Ha). apply (step_phase_stuck s ev s1 E Hn). }
+        apply (H evs s1 s' Ha); [rewrite E1; discriminate|exact Hph']. }
+    apply (IH s1 s' e (sinv_step s ev s1 HI E) Hph1); [|exact Ha|exact Hph'].
+    apply (step_was_started s ev s1 e (proj1 HI Hph) E (or_introl Hws) Hph1).
+Qed.
+
+Theorem started_once prio sn evs1 e pr evs2 s :
+  wf_snap sn -> run g cfg prio sn (evs1 ++ EvStart e pr :: evs2) = Some s ->
+  forall pr', ~ In (EvStart e pr') evs2.
+Proof.
+  intros Hws Hr pr' Hin. unfold run in Hr. rewrite accepts_app in Hr.
+  destruct (accepts g cfg (init_state g cfg prio sn) evs1) as [s1|] eqn:E1; [|discriminate].
+  cbn [accepts] in Hr. destruct (step g cfg s1 (EvStart e pr)) as [s2|] eqn:E2; [|discriminate].
+  pose proof (sinv_accepts evs1 _ s1 (sinv_init prio sn Hws) E1) as HI1.
+  pose proof (sinv_step s1 _ s2 HI1 E2) as HI2.
+  apply in_split in Hin. destruct Hin as [a [b Hab]]. subst evs2. rewrite accepts_app in Hr.
+  destruct (accepts g cfg s2 a) as [s3|] eqn:E3; [|discriminate].
+  cbn [accepts] in Hr. destruct (step g cfg s3 (EvStart e pr')) as [s4|] eqn:E4; [|discriminate].
+  assert (Hph3 : s_phase s3 = PhBuild) by (apply (step_in_build s3 _ s4 E4); intros c m; discriminate).
+  assert (Hph1 : s_phase s1 = PhBuild) by (apply (step_in_build s1 _ s2 E2); intros c m; discriminate).
+  assert (Hph2 : s_phase s2 = PhBuild).
+  { destruct (s_phase s2) eqn:E; [reflexivity| |]; exfalso.
+    - assert (H : forall evs s s', accepts g cfg s evs = Some s' -> s_phase s <> PhBuild -> s_phase s' <> PhBuild).
+      { clear. induction evs as [|ev evs IH]; intros s s' Ha Hn; cbn [accepts] in Ha; [injection Ha as <-; exact Hn|].
+        destruct (step g cfg s ev) as [s1|] eqn:E; [|discriminate].
+        apply (IH s1 s' Ha). apply (step_phase_stuck s ev s1 E Hn). }
+      apply (H a s2 s3 E3); [rewrite E; discriminate|exact Hph3].
+    - assert (H : forall evs s s', accepts g cfg s evs = Some s' -> s_phase s <> PhBuild -> s_phase s' <> PhBuild).
+      { clear. induction evs as [|ev evs IH]; intros s s' Ha Hn; cbn [accepts] in Ha; [injection Ha as <-; exact Hn|].
+        destruct (step g cfg s ev) as [s1|] eqn:E; [|discriminate].
+        apply (IH s1 s' Ha). apply (step_phase_stuck s ev s1 E Hn). }
+      apply (H a s2 s3 E3); [rewrite E; discriminate|exact Hph3]. }
+  assert (Hws2 : was_started s2 e).
+  { apply (step_was_started s1 _ s2 e (proj1 HI1 Hph1) E2); [right; exists pr; reflexivity|exact Hph2]. }
+  pose proof (accepts_was_started a s2 s3 e HI2 Hph2 Hws2 E3 Hph3) as Hws3.
+  pose proof (sinv_accepts a s2 s3 HI2 E3) as HI3.
+  apply (was_started_not_ready s3 e (proj1 HI3 Hph3) Hws3).
+  unfold step in E4. cbn [step_res] in E4.
+  match type of E4 with match (if ?X then _ else _) with _ => _ end = _ => destruct X eqn:G; [|discriminate] end.
+  peel G G2. peel G G0. apply memb_In in G0. exact G0.
+Qed.
+
+(* ------------------------------------------------------------------ C20 *)
+Lemma active_le_npw s : core s -> length (s_running s) + length (s_failed s) <= npw (s_plan s).
+Proof.
+  intros C. rewrite <- app_length. unfold npw, npwf, count_if.
+  apply NoDup_incl_length.
+  - pose proof (pi_nodup _ _ _ _ _ (co_pinv s C)) as H. unfold sched in H.
+    apply NoDup_app_iff in H. destruct H as [_ [H _]]. apply NoDup_app_iff in H. tauto.
+  - intros x Hx. apply filter_In.
+    assert (Hs : In x (sched (s_plan s) (s_running s) (s_failed s))).
+    { unfold sched. apply in_or_app. right. apply in_or_app. right. exact Hx. }
+    destruct (pi_sched _ _ _ _ _ (co_pinv s C) x Hs) as [Hw _].
+    split.
+    + apply all_edges_in. apply (pi_range _ _ _ _ _ (co_pinv s C)). unfold is_wanted in Hw.
+      destruct (p_want (s_plan s) x); [discriminate|discriminate Hw].
+    + rewrite Hw, (co_nophony s C x Hx). reflexivity.
+Qed.
+
+Theorem counters s : reachable s -> s_phase s = PhBuild ->
+  s_finished s <= s_started s /\ s_started s <= s_total s /\
+  s_started s - s_finished s = length (s_running s) /\
+  s_total s = p_commands (s_plan s).
+Proof.
+  intros Hr Hph. destruct (reachable_sinv s Hr) as [HC _]. specialize (HC Hph).
+  pose proof (active_le_npw s HC) as H1. pose proof (co_commands s HC) as H2.
+  pose proof (co_total s HC) as H3. pose proof (co_started s HC) as H4. pose proof (co_fin_failed s HC) as H5.
+  repeat split; lia.
+Qed.
+
+Theorem counters_at_success s s' : reachable s -> step g cfg s (EvExit 0 MSuccess) = Some s' ->
+  s_finished s = s_total s /\ s_started s = s_total s /\
+  s_finished s' = s_finished s /\ s_total s' = s_total s /\ s_started s' = s_started s.
+Proof.
+  intros Hr Hst. destruct (reachable_sinv s Hr) as [HC _].
+  destruct (s_phase s) eqn:Eph.
+  - specialize (HC eq_refl).
+    assert (Hsame : s_finished s' = s_finished s /\ s_total s' = s_total s /\ s_started s' = s_started s).
+    { unfold step in Hst. cbn [step_res] in Hst. rewrite Eph in Hst. destruct (s_waiting s); [discriminate|].
+      match type of Hst with match (match ?X with _ => _ end) with _ => _ end = _ => destruct X as [[c m']|]; [|discriminate] end.
+      match type of Hst with match (if ?X then _ else _) with _ => _ end = _ => destruct X; [|discriminate] end.
+      injection Hst as <-. repeat split. }
+    destruct (exit_build s 0 MSuccess s' Eph Hst) as [_ [_ [[Hmore _]|[_ [_ [_ [_ Hm]]]]]]].
+    + pose proof (active_le_npw s HC) as H1. pose proof (co_commands s HC) as H2.
+      pose proof (co_total s HC) as H3. pose proof (co_started s HC) as H4. pose proof (co_fin_failed s HC) as H5.
+      unfold more_to_do in Hmore. apply andb_false_iff in Hmore.
+      assert (Hgoal : s_finished s = s_total s /\ s_started s = s_total s); [|tauto].
+      destruct Hmore as [Hm|Hm]; apply Nat.ltb_ge in Hm.
+      * assert (Hn0 : npw (s_plan s) = 0).
+        { assert (Hw0 : p_wanted (s_plan s) = 0) by lia.
+          rewrite (pi_wanted _ _ _ _ _ (co_pinv s HC)) in Hw0. unfold npw, npwf, count_if in *.
+          destruct (filter (fun e => is_wanted (p_want (s_plan s)) e && negb (phony g e)) (all_edges g)) as [|x l] eqn:Ef; [reflexivity|].
+          exfalso. assert (Hx : In x (filter (fun e => is_wanted (p_want (s_plan s)) e && negb (phony g e)) (all_edges g))) by (rewrite Ef; left; reflexivity).
+          apply filter_In in Hx. destruct Hx as [Hx1 Hx2]. apply andb_true_iff in Hx2. destruct Hx2 as [Hx2 _].
+          assert (Hx' : In x (filter (is_wanted (p_want (s_plan s))) (all_edges g))) by (apply filter_In; split; assumption).
+          destruct (filter (is_wanted (p_want (s_plan s))) (all_edges g)); [destruct Hx'|discriminate]. }
+        lia.
+      * lia.
+    + unfold fail_msg in Hm. destruct (Nat.eqb (s_fa s) 0); [discriminate|]. destruct (s_fa s <? c_k cfg); discriminate.
+  - destruct (exit_interrupted_phase s 0 MSuccess s' Eph Hst) as [H _]. discriminate.
+  - unfold step in Hst. cbn [step_res] in Hst. rewrite Eph in Hst. discriminate.
+Qed.
+
+End Inv.
